@@ -446,6 +446,47 @@ func (s Emitter) formatLiteral(output io.Writer, literal *cypher.Literal) error 
 	return nil
 }
 
+// Operator precedence of the boolean connectives, loosest first: OR, XOR, AND, NOT.
+const (
+	precedenceOr = iota + 1
+	precedenceXor
+	precedenceAnd
+	precedenceNot
+)
+
+func booleanPrecedence(expression cypher.Expression) (int, bool) {
+	switch typedExpression := expression.(type) {
+	case *cypher.Disjunction:
+		return precedenceOr, len(typedExpression.Expressions) > 1
+	case *cypher.ExclusiveDisjunction:
+		return precedenceXor, len(typedExpression.Expressions) > 1
+	case *cypher.Conjunction:
+		return precedenceAnd, len(typedExpression.Expressions) > 1
+	}
+
+	return 0, false
+}
+
+// writeOperand writes an operand of a boolean connective. A model assembled through the query builders may nest a
+// looser connective directly under a tighter one (And(a, Xor(b, c))) without a Parenthetical; emitting it verbatim
+// would regroup the expression when the text is parsed, so such operands are parenthesized.
+func (s Emitter) writeOperand(output io.Writer, operand cypher.Expression, parentPrecedence int) error {
+	if operandPrecedence, isConnective := booleanPrecedence(operand); isConnective && operandPrecedence < parentPrecedence {
+		if _, err := io.WriteString(output, "("); err != nil {
+			return err
+		}
+
+		if err := s.WriteExpression(output, operand); err != nil {
+			return err
+		}
+
+		_, err := io.WriteString(output, ")")
+		return err
+	}
+
+	return s.WriteExpression(output, operand)
+}
+
 func (s Emitter) WriteExpression(output io.Writer, expression cypher.Expression) error {
 	switch typedExpression := expression.(type) {
 	case *cypher.ProjectionItem:
@@ -468,16 +509,9 @@ func (s Emitter) WriteExpression(output io.Writer, expression cypher.Expression)
 			return err
 		}
 
-		switch innerExpression := typedExpression.Expression.(type) {
-		case *cypher.Parenthetical:
-			if err := s.WriteExpression(output, innerExpression); err != nil {
-				return err
-			}
-
-		default:
-			if err := s.WriteExpression(output, innerExpression); err != nil {
-				return err
-			}
+		// NOT binds tighter than AND, XOR and OR
+		if err := s.writeOperand(output, typedExpression.Expression, precedenceNot); err != nil {
+			return err
 		}
 
 	case *cypher.IDInCollection:
@@ -542,7 +576,7 @@ func (s Emitter) WriteExpression(output io.Writer, expression cypher.Expression)
 				}
 			}
 
-			if err := s.WriteExpression(output, joinedExpression); err != nil {
+			if err := s.writeOperand(output, joinedExpression, precedenceOr); err != nil {
 				return err
 			}
 		}
@@ -555,7 +589,7 @@ func (s Emitter) WriteExpression(output io.Writer, expression cypher.Expression)
 				}
 			}
 
-			if err := s.WriteExpression(output, joinedExpression); err != nil {
+			if err := s.writeOperand(output, joinedExpression, precedenceXor); err != nil {
 				return err
 			}
 		}
@@ -568,7 +602,7 @@ func (s Emitter) WriteExpression(output io.Writer, expression cypher.Expression)
 				}
 			}
 
-			if err := s.WriteExpression(output, joinedExpression); err != nil {
+			if err := s.writeOperand(output, joinedExpression, precedenceAnd); err != nil {
 				return err
 			}
 		}
